@@ -67,8 +67,11 @@ def check_property(pid, tier="quick", only=None, jobs=None, verbose=False, overr
             undecided.append("%s: unsupported: %s" % (r["unit"], r["message"]))
         elif r["status"] == "crash":
             crashed.append("%s: %s" % (r["unit"], r["message"]))
+        exits = [v for n, v in r["covers"] if n == "normal-exit-reachable"]
+        if exits and all(v == "unsat" for v in exits) and not r.get("raises_only"):
+            vacuous.append("%s: no normal exit is reachable" % r["unit"])
         for name, verdict in r["covers"]:
-            if verdict == "unsat":
+            if verdict == "unsat" and name == "requires-satisfiable":
                 vacuous.append("%s: %s is unsatisfiable" % (r["unit"], name))
         if r["status"] == "ok" and not r["obligations"]:
             vacuous.append("%s: zero obligations" % r["unit"])
